@@ -34,4 +34,19 @@ pub mod verif_support {
         kani::assume(false);
         unreachable!()
     }
+
+    // ---- stand-in for thread::switch() (DESIGN.md 2.2.1): counts choice points and runs the environment ----
+    pub static mut SWITCH_COUNT: usize = 0;
+    pub static mut ENV: Option<fn()> = None;
+    pub fn verif_switch() {
+        unsafe {
+            SWITCH_COUNT += 1;
+            if let Some(f) = ENV {
+                f()
+            }
+        }
+    }
+    pub fn switches() -> usize {
+        unsafe { SWITCH_COUNT }
+    }
 }
